@@ -18,6 +18,10 @@ CLAIMED = {
             "Generated-input search: valid claims-sets of both profiles (all optional subsets, hash sizes, 1..4 components) are signed with every algorithm go-cose supports; the token is parsed by the harness's own CBOR reader (tag 18, 4-array, protected = {1: alg}, payload byte-identical to the validated encoding), verified by the harness's own crypto/* based verifier, then decoded and verified by the library and compared claim for claim. Exploration: inputs are unbounded.",
             "Trusts crypto/ecdsa, ed25519 and rsa-PSS from the Go standard library and the harness's Sig_structure builder.",
             "DESIGN.md §4 C03"),
+    "C04": ("exhaustive per-key x wire-class sweep + rapid products of rule-level and wire-level deviations, tokens built by an independent CBOR encoder; independent conformance model + wire-fidelity oracle; known-finding classifiers",
+            "Generated-input search: tokens assembled by the harness's own encoder from a model claims-set (0..4 rule deviations) and 0..3 wire-level mutations per token (null/undefined, every wrong major type incl. look-alikes, out-of-width integers, floats, tags, indefinite forms, non-preferred heads, duplicate keys), permuted keys, unknown int/negative/huge/text keys, mixed-profile key sets; decode-and-validate must accept iff the model is valid and no non-conformant wire form is present, and every getter of an accepted token must return the wire value. Every key x every wire class is enumerated on four backgrounds per profile. Five root causes inherited from the CBOR library's leniency are recorded as known findings, recognised by classifier predicates and excluded so the search continues.",
+            "Encodings the specifications leave open (tags, duplicate keys, one-element nonce array, flag != 1, non-preferred heads, explicit empty list next to the flag, tokens whose profile claim was disturbed while the other profile's keys are mixed in) get no accept/reject verdict.",
+            "DESIGN.md §4 C04"),
     "C05": ("complete enumeration of tiny inputs, every-node x every-mutation sweeps, truncation/substitution sweeps, rapid multi-mutants, native go fuzzing (thorough); oracle = recover() around decode + full use of the result",
             "Generated-input search over byte strings for 35 decoding entry points (COSE evidence, claims CBOR/JSON with and without validation, the per-type unmarshal methods incl. two extension types, populate helpers with flat/embedded/interface-embedded destinations): ALL strings of length <= 3 and a structured 4-byte family, every node of 10 base documents replaced by ~50 other items or structurally mutated, every truncation and header-byte substitution of all vectors, tens of thousands of random multi-mutants; whatever decodes without error is then validated, read through every getter, re-encoded and verified with 10 kinds of key. Any panic (or runtime fatal error) is a violation. Exploration: the input space is all byte strings.",
             "Only panics are judged, not verdicts. Malformed Go key objects (wrong-length ed25519 keys) are outside 'any key'.",
